@@ -216,6 +216,27 @@ def scripted_cases():
                     ops += [["answer", 0], ["deliver", 0], ["process"]]
                 ops += breaker + [["settle", SETTLE], ["peer_set_best", main], ["settle", SETTLE]]
                 res.append({"cfg": {"parents": par, "start": 0, "m": 2000}, "ops": ops})
+    # in sync, the peer reorganises at height h, and AGAIN at the same height before the first branch's blocks have
+    # all arrived (k steps of the fair schedule after the first reorganisation, k = 1..12)
+    par = [[i, i - 1] for i in range(1, 6)] + [[50, 4], [51, 50], [60, 4], [61, 60], [62, 61]]
+    main = list(range(0, 6))
+    for k in range(1, 13):
+        for check in (0, 1):
+            ops = [["peer_set_best", main], ["settle", SETTLE], ["peer_set_best", main[:5] + [50, 51]], ["settle", k]] + \
+                  ([["check"]] if check else []) + \
+                  [["peer_set_best", main[:5] + [60, 61]], ["settle", SETTLE], ["peer_set_best", main[:5] + [60, 61, 62]], ["settle", SETTLE]]
+            res.append({"cfg": {"parents": par, "start": 0, "m": 2000}, "ops": ops})
+    # ... the same with the first branch's BLOCKS slow: the peer answers the header request before the older block
+    # requests (answer j > 0), the node has the peer's last header and only waits for blocks, and then the second
+    # reorganisation is announced
+    for j in (1, 2):
+        for nd in (1, 2):
+            for check in (0, 1):
+                ops = [["peer_set_best", main], ["settle", SETTLE], ["peer_set_best", main[:5] + [50, 51]], ["deliver", 0], ["check"],
+                       ["answer", j]] + [["deliver", 0]] * nd + ([["check"]] if check else []) + \
+                      [["peer_set_best", main[:5] + [60, 61]], ["deliver", 0], ["check"], ["settle", SETTLE],
+                       ["peer_set_best", main[:5] + [60, 61, 62]], ["settle", SETTLE]]
+                res.append({"cfg": {"parents": par, "start": 0, "m": 2000}, "ops": ops})
     return res
 
 
